@@ -95,6 +95,15 @@ def handle (j : Json) : Except String Json := do
         | some (.many ks) => .arr (ks.map (fun k => Json.arr (k.map Json.str).toArray)).toArray
         | some (.one (some k)) => .arr (k.map Json.str).toArray
         | _ => .null)])
+  | "getstate_rows" =>
+      -- full: the ordered result (row numbers); limit / offset: number or null; materialised: was the result iterated before pickling
+      let full ← (← argArr j "full").mapM (fun x => (fromJson? x : Except String Nat))
+      let lim := (← argOptInt j "limit").map Int.toNat
+      let off := (← argOptInt j "offset").map Int.toNat
+      let mat ← argBool j "materialised"
+      let its : Option (List Nat) := if mat then some (PonyVerif.Model.Pickle.fetchWindow lim off full) else none
+      let r : PonyVerif.Model.Pickle.QResult Nat := { limit := lim, offset := off, items := its }
+      pure (Json.mkObj [("ok", .arr ((PonyVerif.Model.Pickle.getstateRows full r).map (fun n => Json.num (JsonNumber.fromNat n))).toArray)])
   | "reduce_entity" =>
       let o ← Pk.parseObj (← j.getObjVal? "obj")
       match PonyVerif.Model.Pickle.reduce o with
